@@ -47,7 +47,7 @@ type c14State struct {
 	hosts map[string]hostNode
 	base  map[string]string // "spec:<path>" / "dev:<qualified>" -> JSON image
 	files map[string]*specs.Spec
-	names []string // qualified device names
+	names []string                       // qualified device names
 	nodes map[string][]*specs.DeviceNode // qualified name -> device nodes that injection of that name applies (spec-level first)
 	dirs  []string
 }
